@@ -27,6 +27,29 @@ theorem classify_rep_pos {t : Bytes} {n : Nat} {v : Bytes} (h : classify t = .re
         · cases hm
         · next hn => cases hm; omega
 
+/-- a repeat count the model accepts is a positive `int`: `std::stoi` rejects anything above
+`INT_MAX` (`out_of_range`), `StarToken::init_` rejects zero. -/
+theorem classify_rep_range {t : Bytes} {n : Nat} {v : Bytes} (h : classify t = .rep n v) :
+    1 ≤ n ∧ n ≤ 2147483647 := by
+  refine ⟨classify_rep_pos h, ?_⟩
+  unfold classify at h
+  split at h
+  · cases h
+  · next c v' _ =>
+    split at h
+    · cases h
+    · next m hm =>
+      cases h
+      unfold starCount at hm
+      split at hm
+      · split at hm
+        · cases hm; omega
+        · cases hm
+      · simp only at hm
+        split at hm
+        · cases hm
+        · next hn => cases hm; omega
+
 theorem classify_oneStar : classify oneStar = .rep 1 [] := by decide
 
 /-! ## star expansion -/
